@@ -53,6 +53,11 @@ def execute(acc, case):
             # ---------------- reach the life-cycle point
             if cause == "refused":
                 sc.client_start_in_task = True
+                if case.get("connect_errno"):
+                    # the attempt does not end in ECONNREFUSED but times out (ETIMEDOUT) or comes back unreachable (EHOSTUNREACH,
+                    # ENETUNREACH): other OSError classes, the same obligation
+                    sc.net.connect_fail_errno = case["connect_errno"]
+                    acc.counters["connection_attempts_failing_with_another_errno"] += 1
                 if case.get("park") is not None:
                     # the thread inside start() is descheduled at its k-th line while the state machine it has just started
                     # tests the connection, finds it refused and closes the association
@@ -328,6 +333,10 @@ def main(tier, seed):
             for role in ("client", "server"):
                 cases.append({"seed": seed * 7919 + len(cases), "cause": cause, "point": "consumer-blocked", "role": role, "strategy": "rw",
                               "p": 0.02, "transport": "TCP", "dpr_cause": nth % 3 if cause == "peer-dpr" else 0, "park": nth})
+    import errno as _errno
+    for i, en in enumerate((_errno.ETIMEDOUT, _errno.EHOSTUNREACH, _errno.ENETUNREACH, _errno.ECONNRESET) * (2 if q else 20)):
+        cases.append({"seed": seed * 7919 + len(cases), "cause": "refused", "point": "during-connect", "role": "client", "strategy": ("rr", "rw")[i % 2], "p": 0.1,
+                      "transport": "TCP", "connect_errno": en})
     for kind in ("CER", "DWR", "APP"):
         for cause in ("local-close", "peer-disconnect", "peer-dpr"):
             for nth in range(0, 40, 2 if q else 1):
@@ -359,7 +368,7 @@ def main(tier, seed):
                           ["bounds are on the virtual clock (60 s) and the step counter; a wall-clock watchdog firing is inconclusive",
                            "refused connection follows Linux semantics observed on the real loopback: first send() raises ConnectionRefusedError, later ones BrokenPipeError",
                            "combinations the statement does not reach (close() before Open is a no-op, DPR outside Open) are left to C06's soft cells"],
-                          t0, extra_cov={"cells": cells}, require_counters=("state_machine_parked_inside_a_handler_across_the_end", "executions", "restarts_ok", "consumer_returned", "real_loopback_ok", "twin_node_executions", "other_node_still_working", "setup_failures_injected", "drained_after_the_end"))
+                          t0, extra_cov={"cells": cells}, require_counters=("state_machine_parked_inside_a_handler_across_the_end", "connection_attempts_failing_with_another_errno", "executions", "restarts_ok", "consumer_returned", "real_loopback_ok", "twin_node_executions", "other_node_still_working", "setup_failures_injected", "drained_after_the_end"))
 
 
 def replay(w):
